@@ -345,6 +345,7 @@ CHECKS["C04"] = dict(
 )
 
 CHECKS["C08"] = dict(
+    technique="bounded symbolic execution of the real go/ssa in which scheduling decisions are symbolic variables enumerated by the SMT-driven path search (delay-bounded schedule exploration around two base schedules), with vector-clock happens-before race detection on the explored schedules; counterexamples replayed natively under seeded jitter (data races: under go test -race)",
     level_text="Bounded schedule exploration of one fixed transfer (real Send over a synthetic view read in one-byte fragments, real Receive on the model file system with a dirty prior destination): which goroutine runs next is a solver-chosen value before every channel operation, select, lock/unlock, WaitGroup operation, close and go statement, and whenever the running goroutine blocks, within a delay bound around two base schedules (oldest-runnable-first and youngest-runnable-first). On every schedule inside the bound the solver-driven search shows: both calls succeed, the destination equals the source view, the set of content requests and the set of change notifications with their digests are the expected ones, neither end ever has two SendMsg or two RecvMsg calls in flight on its stream, nothing deadlocks, no goroutine is left behind, and no two accesses of the library's own code to the same variable, struct field, slice element or map (at least one a write) are unordered by happens-before (vector-clock race detection over channel, close, mutex, WaitGroup, atomic, Once, Pool and go edges).",
     level_note="PARTIAL. Bounds: one concrete scenario (d/, d/f = 2 bytes, e = 1 byte, 4 further directories; prior destination with an older e and a stale entry), stream buffer capacity 0 and 1, delay bound 1 (quick) / 2 (thorough) per base schedule. Outside the claim: races involving memory accessed only inside the standard library or dependencies on the library's behalf (the happens-before detector watches loads, stores, map operations of fsutil's own functions; e.g. a payload buffer read inside io.Pipe is not watched), races on schedules outside the bound whose accesses never both execute, schedules needing more delays than the bound, larger capacities, many multi-chunk files in flight, GOMAXPROCS (parallelism is abstracted as interleaving at visible operations). A schedule-dependent counterexample cannot be replayed deterministically on the real scheduler: the check replays it up to 150 times natively with seeded random pauses inside the harness transport and reports it only if one repetition fails or hangs (a reported data race: only if the Go race detector, go test -race, flags a race in one of the repetitions); otherwise the result is inconclusive (exit 2). " + FS_TRUST + BASE_TRUST,
     assumptions=["interleaving only at visible operations (channel, select, mutex, WaitGroup, close, go) - sufficient for outcomes when the code is free of data races, which the happens-before detector checks for the library's own accesses on the explored schedules",
